@@ -45,6 +45,9 @@ type defScn struct {
 	} `json:"scn"`
 	Weight  int `json:"weight"`
 	Fs381   int `json:"fs381"`
+	Mid381  int `json:"mid381"`
+	WantMid int `json:"wantmid381"`
+	Lh381   int `json:"lh381"`
 	Want381 int `json:"want381"`
 }
 
@@ -406,6 +409,52 @@ func c04Units(s *defScn, line []byte, out *drv.Out) {
 	if math.Abs(gotFs-float64(s.Fs381)) > 1e-4*float64(s.Fs381)+0.5 {
 		out.Disagree("units:font-size:"+sc.Leaf+"-in-"+sc.Mid+"-in-"+sc.Root, fmt.Sprintf("%s: font-size computes to %v px, CSS requires %g px", doc, fs.Value, float64(s.Fs381)/381),
 			map[string]interface{}{"doc": doc, "got_px": fs.Value, "want_px": float64(s.Fs381) / 381})
+		return
+	}
+	// one declaration in a style sheet matched by two elements with different font sizes, for several length-valued
+	// properties: each element computes against its own font size, in either access order
+	val := fmt.Sprintf("%d%s", sc.N, sc.Unit)
+	doc2 := fmt.Sprintf(`<html style="%s"><head><style>body, p { padding-left:%s; text-indent:%s; letter-spacing:%s; border-spacing:%s %s; transform:translate(%s, %s); margin-top:%s } body { line-height:150%% }</style></head><body style="%s"><p style="%s">x</p></body></html>`,
+		c04FsDecl(sc.Root), val, val, val, val, val, val, val, val, c04FsDecl(sc.Mid), c04FsDecl(sc.Leaf))
+	for order := 0; order < 2; order++ {
+		n2, err := c04Styles(doc2)
+		if err != nil {
+			out.Fatal(err.Error())
+			return
+		}
+		idx := []int{1, 2}
+		if order == 1 {
+			idx = []int{2, 1}
+		}
+		for _, node := range idx {
+			st := n2.sf.Get(n2.nodes[node], "")
+			want := float64(s.Want381) / 381
+			if node == 1 {
+				want = float64(s.WantMid) / 381
+			}
+			tr := st.GetTransform()
+			got := map[string]float64{
+				"padding-left": float64(st.GetPaddingLeft().Value), "text-indent": float64(st.GetTextIndent().Value), "letter-spacing": float64(st.GetLetterSpacing().Value),
+				"border-spacing": float64(st.GetBorderSpacing()[0].Value), "margin-top": float64(st.GetMarginTop().Value),
+			}
+			if len(tr) == 1 && len(tr[0].Dimensions) == 2 {
+				got["transform-translate"] = float64(tr[0].Dimensions[1].Value)
+			} else {
+				got["transform-translate"] = math.NaN()
+			}
+			for name, g := range got {
+				if !(math.Abs(g-want) <= 1e-4*want+0.002) {
+					out.Disagree("units:shared-declaration:"+name, fmt.Sprintf("%s: %s on %s computes to %g px, CSS requires %g px (access order %v)", doc2, name, []string{"html", "body", "p"}[node], g, want, idx),
+						map[string]interface{}{"doc": doc2, "prop": name, "got": g, "want": want})
+					return
+				}
+			}
+		}
+		lh := n2.sf.Get(n2.nodes[2], "").GetLineHeight()
+		if lh.Unit != pr.Px || math.Abs(float64(lh.Value)*381-float64(s.Lh381)) > 1e-4*float64(s.Lh381)+0.5 {
+			out.Disagree("units:line-height-percentage-inherited", fmt.Sprintf("%s: the leaf inherits line-height %v, CSS requires the absolute %g px", doc2, lh, float64(s.Lh381)/381), map[string]interface{}{"doc": doc2})
+			return
+		}
 	}
 }
 
